@@ -2,6 +2,7 @@
    well-formed values (C07.Proofs), so the generic algebra of C07.Filters applies. *)
 From Coq Require Import Sorting.Permutation.
 From MJ Require Import Common.Base Common.ListLemmas C07.Model C07.Spec C07.Proofs C07.Filters.
+Ltac Zify.zify_post_hook ::= Z.div_mod_to_equations.
 
 
 (* ------------------------------------------------------------------ *)
@@ -30,17 +31,17 @@ Proof.
   reflexivity.
 Qed.
 
-Lemma vbody_tbl a b c : wf a = true -> wf b = true -> wf c = true ->
+Lemma vbody_tbl a b c : wfn a = true -> wfn b = true -> wfn c = true ->
   kind_rank a = kind_rank b -> kind_rank b = kind_rank c -> tbl vbody a b c.
 Proof.
-  intros Wa Wb Wc R1 R2. pose proof (vcmp_tbl a b c Wa Wb Wc) as T.
+  intros Wa Wb Wc R1 R2. pose proof (vcmp_tbl_n a b c Wa Wb Wc) as T.
   apply (tbl_ext _ vcmp); auto; rewrite vcmp_eqn; unfold ranked.
   - rewrite R1, Z.compare_refl. reflexivity.
   - rewrite R2, Z.compare_refl. reflexivity.
   - rewrite R1, R2, Z.compare_refl. reflexivity.
 Qed.
 
-Lemma fold_body_tbl a b c : wf a = true -> wf b = true -> wf c = true ->
+Lemma fold_body_tbl a b c : wfn a = true -> wfn b = true -> wfn c = true ->
   kind_rank a = kind_rank b -> kind_rank b = kind_rank c -> tbl fold_body a b c.
 Proof.
   intros Wa Wb Wc R1 R2.
@@ -51,12 +52,12 @@ Proof.
   apply zlist_tbl.
 Qed.
 
-Lemma cmp_helper_tbl cs rev a b c : wf a = true -> wf b = true -> wf c = true -> tbl (cmp_helper cs rev) a b c.
+Lemma cmp_helper_tbl cs rev a b c : wfn a = true -> wfn b = true -> wfn c = true -> tbl (cmp_helper cs rev) a b c.
 Proof.
   intros Wa Wb Wc.
   assert (T : tbl (cmp_helper cs false) a b c).
   { destruct cs.
-    - apply (tbl_ext _ vcmp); try reflexivity. apply vcmp_tbl; auto.
+    - apply (tbl_ext _ vcmp); try reflexivity. apply vcmp_tbl_n; auto.
     - apply (tbl_ext _ (ranked kind_rank fold_body)); try apply cmp_helper_fold.
       apply ranked_tbl. intros. apply fold_body_tbl; auto. }
   destruct rev; [|exact T].
@@ -64,14 +65,14 @@ Proof.
   apply tbl_opp. exact T.
 Qed.
 
-Lemma cmp_helper_anti cs rev a b : wf a = true -> wf b = true ->
+Lemma cmp_helper_anti cs rev a b : wfn a = true -> wfn b = true ->
   cmp_helper cs rev b a = CompOpp (cmp_helper cs rev a b).
 Proof.
   intros Wa Wb.
   assert (T : cmp_helper cs false b a = CompOpp (cmp_helper cs false a b)).
   { destruct cs.
-    - apply vcmp_anti; auto.
-    - unfold cmp_helper, string_for_fold. destruct a; try (apply vcmp_anti; auto); destruct b; try (apply vcmp_anti; auto).
+    - apply vcmp_anti_n; auto.
+    - unfold cmp_helper, string_for_fold. destruct a; try (apply vcmp_anti_n; auto); destruct b; try (apply vcmp_anti_n; auto).
       apply zlist_anti. }
   destruct rev; [|exact T]. unfold cmp_helper in *. rewrite T. reflexivity.
 Qed.
@@ -79,44 +80,43 @@ Qed.
 (* ------------------------------------------------------------------ *)
 (* keys stay well formed                                               *)
 (* ------------------------------------------------------------------ *)
-Lemma str_lookup_wf key kvs v : Forall (fun x => wf x = true) (flat_pairs kvs) -> str_lookup key kvs = Some v -> wf v = true.
+Lemma str_lookup_wf key kvs v : Forall (fun x => wfn x = true) (flat_pairs kvs) -> str_lookup key kvs = Some v -> wfn v = true.
 Proof.
   induction kvs as [|[k x] r IH]; cbn; intros W E; [discriminate|].
   apply Forall_cons_iff in W. destruct W as [Wk W]. apply Forall_cons_iff in W. destruct W as [Wx W].
   destruct k; auto. destruct (zlist_eqb s key); auto. injection E as <-. exact Wx.
 Qed.
 
-Lemma get_path_or_default_wf key d v : wf v = true -> wf d = true -> wf (get_path_or_default key d v) = true.
+Lemma get_path_or_default_wf key d v : wfn v = true -> wfn d = true -> wfn (get_path_or_default key d v) = true.
 Proof.
   intros Wv Wd. unfold get_path_or_default, get_attr.
   destruct v; auto. destruct (str_lookup key kvs) eqn:E; auto.
-  pose proof (str_lookup_wf key kvs v (wf_items (VMap kvs) Wv) E) as W. destruct v; auto.
+  pose proof (str_lookup_wf key kvs v (wfn_items (VMap kvs) Wv) E) as W. destruct v; auto.
 Qed.
 
-Lemma unique_key_wf cs attr v : wf v = true -> wf (unique_key cs attr v) = true.
+Lemma unique_key_wf cs attr v : wfn v = true -> wfn (unique_key cs attr v) = true.
 Proof.
   intros Wv. unfold unique_key.
-  assert (W : wf (match attr with Some key => get_path_or_default key VUndef v | None => v end) = true).
+  assert (W : wfn (match attr with Some key => get_path_or_default key VUndef v | None => v end) = true).
   { destruct attr; auto. apply get_path_or_default_wf; auto. }
   destruct cs; auto. destruct (string_for_fold _); auto.
 Qed.
 
-Lemma iter_items_wf v items : wf v = true -> iter_items v = Ok items -> Forall (fun x => wf x = true) items.
+Lemma iter_items_wf v items : wfn v = true -> iter_items v = Ok items -> Forall (fun x => wfn x = true) items.
 Proof.
   intros W E. destruct v; cbn in E; try discriminate E; injection E as <-; try constructor.
   - induction s; constructor; auto.
-  - apply (wf_items (VSeq vs) W).
-  - apply (wf_items (VTuple vs) W).
-  - apply (wf_items (VIter sh vs) W).
-  - pose proof (wf_items (VMap kvs) W) as H. cbn [items_of] in H.
+  - apply (wfn_items (VSeq vs) W).
+  - apply (wfn_items (VTuple vs) W).
+  - apply (wfn_items (VIter sh vs) W).
+  - pose proof (wfn_items (VMap kvs) W) as H. cbn [items_of] in H.
     induction kvs as [|[k x] r IH]; cbn; [constructor|].
     cbn [flat_pairs] in H. apply Forall_cons_iff in H. destruct H as [Hk H]. apply Forall_cons_iff in H. destruct H as [_ H].
     constructor; auto. apply IH; auto.
-    cbn [wf] in W |- *. apply andb_prop in W. destruct W as [W1 W2]. apply andb_prop in W2. destruct W2 as [_ W2].
-    rewrite W2, andb_true_r. destruct r as [|[k2 x2] r]; [reflexivity|]. cbn [keys_ascending] in W1. apply andb_prop in W1. apply W1.
+    cbn [wfn] in W |- *. apply andb_prop in W. apply W.
 Qed.
 
-Definition WF (v : value) : Prop := wf v = true.
+Definition WF (v : value) : Prop := wfn v = true.
 
 Lemma sort_cmp_tbl cs rev attr a b c : WF a -> WF b -> WF c -> tbl (sort_cmp cs rev attr) a b c.
 Proof.
@@ -131,7 +131,7 @@ Proof.
   intros Wa Wb. unfold sort_cmp. destruct attr as [key|]; apply cmp_helper_anti; auto; apply get_path_or_default_wf; auto.
 Qed.
 
-Theorem sort_law_values cs rev attr v items : wf v = true -> iter_items v = Ok items ->
+Theorem sort_law_values cs rev attr v items : wfn v = true -> iter_items v = Ok items ->
   exists out, f_sort cs rev attr v = Ok (VSeq out) /\ SortedStablePerm (sort_cmp cs rev attr) items out.
 Proof.
   intros W E. unfold f_sort. rewrite E. cbn [bind]. eexists; split; [reflexivity|].
@@ -143,18 +143,18 @@ Qed.
 Lemma sort_cmp_reverse cs attr a b : sort_cmp cs true attr a b = CompOpp (sort_cmp cs false attr a b).
 Proof. unfold sort_cmp, cmp_helper. destruct attr; reflexivity. Qed.
 
-Theorem unique_law_values cs attr v items : wf v = true -> iter_items v = Ok items ->
+Theorem unique_law_values cs attr v items : wfn v = true -> iter_items v = Ok items ->
   exists out, f_unique cs attr v = Ok (VSeq out) /\ UniqueLaw vcmp (unique_key cs attr) items out.
 Proof.
   intros W E. unfold f_unique. rewrite E. cbn [bind]. eexists; split; [reflexivity|].
   apply (unique_law WF);
     first [ apply (iter_items_wf v); auto; fail
-          | intros; apply vcmp_anti; auto; fail
-          | intros; apply vcmp_tbl; auto; fail
+          | intros; apply vcmp_anti_n; auto; fail
+          | intros; apply vcmp_tbl_n; auto; fail
           | intros; apply unique_key_wf; auto ].
 Qed.
 
-Theorem groupby_law_values cs key dflt v items : wf v = true -> wf dflt = true -> iter_items v = Ok items ->
+Theorem groupby_law_values cs key dflt v items : wfn v = true -> wfn dflt = true -> iter_items v = Ok items ->
   exists groups, f_groupby cs key dflt v = Ok (VSeq (map (fun g => VSeq [fst g; VIter LzUnsized (snd g)]) groups)) /\
                  GroupLaw (cmp_helper cs false) (get_path_or_default key dflt) items groups.
 Proof.
@@ -183,7 +183,7 @@ Proof.
     apply slice_of_law. exact Hc.
 Qed.
 
-Theorem min_max_values v items : wf v = true -> iter_items v = Ok items ->
+Theorem min_max_values v items : wfn v = true -> iter_items v = Ok items ->
   exists mn mx, f_min v = Ok mn /\ f_max v = Ok mx /\
     (items = [] -> mn = VUndef /\ mx = VUndef) /\
     (items <> [] -> IsMin vcmp items mn /\ IsMax vcmp items mx).
@@ -195,8 +195,8 @@ Proof.
   - intros NE. destruct items as [|x r]; [congruence|].
     destruct (min_of vcmp (x :: r)) eqn:M1; [|discriminate M1]. destruct (max_of vcmp (x :: r)) eqn:M2; [|discriminate M2].
     split.
-    + apply (min_of_spec WF vcmp); auto; [intros; apply vcmp_anti; auto|intros; apply vcmp_tbl; auto].
-    + apply (max_of_spec WF vcmp); auto; [intros; apply vcmp_anti; auto|intros; apply vcmp_tbl; auto].
+    + apply (min_of_spec WF vcmp); auto; [intros; apply vcmp_anti_n; auto|intros; apply vcmp_tbl_n; auto].
+    + apply (max_of_spec WF vcmp); auto; [intros; apply vcmp_anti_n; auto|intros; apply vcmp_tbl_n; auto].
 Qed.
 
 (* reverse: the items in reverse order; applying it twice gives the original items back.
@@ -252,4 +252,213 @@ Proof.
   unfold f_last. destruct v; try exact I;
     try (apply safe_bind; [apply safe_reverse|intros; apply safe_bind; [apply safe_iter|intros; exact I]]).
   destruct (forallb _ _); exact I.
+Qed.
+
+(* ------------------------------------------------------------------ *)
+(* dictsort / items                                                    *)
+(* ------------------------------------------------------------------ *)
+Definition WFP (p : value * value) : Prop := wfn (fst p) = true /\ wfn (snd p) = true.
+
+Lemma wfn_map_pairs kvs : wfn (VMap kvs) = true -> Forall WFP kvs.
+Proof.
+  cbn [wfn]. induction kvs as [|[k x] r IH]; intros H; constructor.
+  - apply andb_prop in H. destruct H as [H _]. apply andb_prop in H. exact H.
+  - apply IH. apply andb_prop in H. apply H.
+Qed.
+
+Theorem dictsort_law_values by_value cs rev v :
+  match v with
+  | VMap kvs => wfn v = true ->
+      exists out, f_dictsort by_value cs rev v = Ok (VSeq (map pair_value out)) /\
+                  SortedStablePerm (dictsort_cmp by_value cs rev) kvs out
+  | _ => f_dictsort by_value cs rev v = Err E_InvalidOperation
+  end.
+Proof.
+  destruct v; try reflexivity. intros W. cbn [f_dictsort]. eexists; split; [reflexivity|].
+  apply (sort_law WFP).
+  - intros a b [A1 A2] [B1 B2]. unfold dictsort_cmp. destruct by_value; apply cmp_helper_anti; auto.
+  - intros a b c [A1 A2] [B1 B2] [C1 C2]. unfold dictsort_cmp. destruct by_value.
+    + apply (cmp_helper_tbl cs rev (snd a) (snd b) (snd c)); auto.
+    + apply (cmp_helper_tbl cs rev (fst a) (fst b) (fst c)); auto.
+  - apply wfn_map_pairs. exact W.
+Qed.
+
+Theorem items_values v :
+  match v with
+  | VMap kvs => f_items v = Ok (VIter LzUnsized (map pair_value kvs))
+  | _ => f_items v = Err E_InvalidOperation
+  end.
+Proof. destruct v; reflexivity. Qed.
+
+(* ------------------------------------------------------------------ *)
+(* select / reject                                                     *)
+(* ------------------------------------------------------------------ *)
+Section Partition.
+  Context {A : Type}.
+  Variable p : A -> bool.
+
+  Lemma filter_subseq (l : list A) : Subseq (filter p l) l.
+  Proof. induction l as [|x r IH]; cbn; [constructor|]. destruct (p x); [apply Subseq_take|apply Subseq_skip]; auto. Qed.
+
+  Lemma filter_perm (l : list A) : Permutation l (filter p l ++ filter (fun x => negb (p x)) l).
+  Proof.
+    induction l as [|x r IH]; cbn; auto. destruct (p x); cbn.
+    - apply perm_skip. exact IH.
+    - eapply perm_trans; [apply perm_skip; exact IH|]. apply Permutation_middle.
+  Qed.
+
+  Lemma filter_all (l : list A) : Forall (fun x => p x = true) (filter p l).
+  Proof. apply Forall_forall. intros x H. apply filter_In in H. apply H. Qed.
+End Partition.
+
+(* select and reject split the items into those that are true and those that are not,
+   each in input order *)
+Theorem select_reject_values v items : iter_items v = Ok items ->
+  exists sel rej, f_select false v = Ok (VSeq sel) /\ f_select true v = Ok (VSeq rej) /\
+    Subseq sel items /\ Subseq rej items /\
+    Forall (fun x => is_true x = true) sel /\ Forall (fun x => is_true x = false) rej /\
+    Permutation items (sel ++ rej).
+Proof.
+  intros E. unfold f_select. rewrite E. cbn [bind].
+  exists (filter is_true items), (filter (fun x => negb (is_true x)) items).
+  assert (E1 : forall l, filter (fun x => negb (Bool.eqb (is_true x) false)) l = filter is_true l).
+  { intros l. apply filter_ext. intros a. destruct (is_true a); reflexivity. }
+  assert (E2 : forall l, filter (fun x => negb (Bool.eqb (is_true x) true)) l = filter (fun x => negb (is_true x)) l).
+  { intros l. apply filter_ext. intros a. destruct (is_true a); reflexivity. }
+  rewrite E1, E2. repeat split.
+  - apply filter_subseq.
+  - apply filter_subseq.
+  - apply filter_all.
+  - eapply Forall_impl; [|apply (filter_all (fun x => negb (is_true x)))]. cbn. intros a H. destruct (is_true a); auto; discriminate.
+  - apply filter_perm.
+Qed.
+
+(* ------------------------------------------------------------------ *)
+(* map(attribute=..)                                                   *)
+(* ------------------------------------------------------------------ *)
+Lemma map_attr_go_ok key dflt items out : map_attr_go key dflt items = Ok out ->
+  out = map (get_path_or_default key dflt) items.
+Proof.
+  revert out. induction items as [|x r IH]; intros out E; cbn [map_attr_go] in E.
+  - injection E as <-. reflexivity.
+  - cbn [map]. unfold get_path_or_default at 1. destruct (get_attr key x) as [a|].
+    + destruct (map_attr_go key dflt r) as [rest| | |]; try discriminate E. cbn [bind] in E. injection E as <-.
+      rewrite (IH rest eq_refl). destruct a; reflexivity.
+    + destruct dflt; try discriminate E;
+        (destruct (map_attr_go key _ r) as [rest| | |]; try discriminate E; cbn [bind] in E; injection E as <-;
+         rewrite (IH rest eq_refl); reflexivity).
+Qed.
+
+Lemma map_attr_go_err key dflt items c : map_attr_go key dflt items = Err c ->
+  c = E_UndefinedError /\ dflt = VUndef /\ In VUndef items.
+Proof.
+  induction items as [|x r IH]; cbn [map_attr_go]; [discriminate|]. intros G.
+  assert (REC : forall d (f : list value -> outcome (list value)), bind (map_attr_go key d r) f = Err c -> (forall rest, f rest <> Err c) -> map_attr_go key d r = Err c).
+  { intros d f H NF. destruct (map_attr_go key d r); cbn [bind] in H; try discriminate H; auto. exfalso. eapply NF; eauto. }
+  destruct (get_attr key x) as [a|] eqn:GA.
+  - apply REC in G; [|intros; discriminate]. destruct (IH G) as (H1 & H2 & H3). repeat split; auto. right; auto.
+  - assert (x = VUndef) by (destruct x; cbn in GA; try discriminate GA; reflexivity). subst x.
+    destruct dflt; try (injection G as <-; repeat split; auto; left; reflexivity);
+      (apply REC in G; [|intros; discriminate]; destruct (IH G) as (H1 & H2 & H3); discriminate H2).
+Qed.
+
+Lemma map_attr_go_safe key dflt items : safe (map_attr_go key dflt items).
+Proof.
+  induction items as [|x r IH]; cbn [map_attr_go]; [exact I|].
+  destruct (get_attr key x); [|destruct dflt; try exact I];
+    destruct (map_attr_go key _ r); cbn [bind] in *; auto.
+Qed.
+
+(* map is pointwise (the attribute of every item, the default where there is none); it fails
+   exactly when an item has no attributes at all (an undefined item) and no default is given *)
+Theorem map_attr_values key dflt v items : iter_items v = Ok items ->
+  (f_map_attr key dflt v = Ok (VSeq (map (get_path_or_default key dflt) items))) \/
+  (f_map_attr key dflt v = Err E_UndefinedError /\ dflt = VUndef /\ In VUndef items).
+Proof.
+  intros E. unfold f_map_attr. rewrite E. cbn [bind]. clear E.
+  pose proof (map_attr_go_safe key dflt items) as S.
+  destruct (map_attr_go key dflt items) as [out|c| |] eqn:G; try (destruct S).
+  - left. rewrite (map_attr_go_ok _ _ _ _ G). reflexivity.
+  - right. destruct (map_attr_go_err _ _ _ _ G) as (-> & H2 & H3). auto.
+Qed.
+
+(* ------------------------------------------------------------------ *)
+(* sum                                                                 *)
+(* ------------------------------------------------------------------ *)
+
+Lemma lenZ_cons' {A} (x : A) l : lenZ (x :: l) = lenZ l + 1.
+Proof. unfold lenZ. cbn [length]. lia. Qed.
+
+Lemma sum_go_exact items : forall acc, Forall is_i64_int items ->
+  Z.abs acc + lenZ items * 2 ^ 63 <= 2 ^ 126 -> sum_go acc items = Ok (acc + zsum items).
+Proof.
+  induction items as [|x r IH]; intros acc F B; cbn [sum_go zsum fold_right].
+  - f_equal. lia.
+  - apply Forall_cons_iff in F. destruct F as [Fx Fr]. destruct x; cbn in Fx; try contradiction. cbn [int_of].
+    rewrite lenZ_cons' in B. assert (0 <= lenZ r) by (unfold lenZ; lia).
+    unfold i64_min, i64_max in Fx.
+    assert (I1 : in_i128 z = true) by (unfold in_i128, i128_min, i128_max; lia).
+    assert (I2 : in_i128 (acc + z) = true) by (unfold in_i128, i128_min, i128_max; lia).
+    rewrite I1, I2. cbn [negb]. rewrite IH; auto; [f_equal; fold (zsum r); lia|lia].
+Qed.
+
+Lemma zsum_cons x l : zsum (x :: l) = int_of x + zsum l.
+Proof. reflexivity. Qed.
+
+Lemma zsum_app a b : zsum (a ++ b) = zsum a + zsum b.
+Proof. induction a as [|x r IH]; cbn [app]; [reflexivity|]. rewrite !zsum_cons, IH. lia. Qed.
+
+Lemma zsum_perm a b : Permutation a b -> zsum a = zsum b.
+Proof. induction 1; rewrite ?zsum_cons in *; lia. Qed.
+
+(* the sum of a list of (fewer than 2^63) i64 integers is their exact mathematical sum: no
+   overflow, no dependence on the order of the items *)
+Theorem sum_exact_values v items : iter_items v = Ok items -> Forall is_i64_int items -> lenZ items < 2 ^ 62 ->
+  f_sum v = Ok (VInt W_I128 (zsum items)).
+Proof.
+  intros E F L. unfold f_sum. rewrite E. cbn [bind]. rewrite sum_go_exact; auto.
+  cbn. assert (0 <= lenZ items) by (unfold lenZ; lia). lia.
+Qed.
+
+(* ------------------------------------------------------------------ *)
+(* join                                                                *)
+(* ------------------------------------------------------------------ *)
+
+
+Lemma join_go_rest d items parts : rendered items = Some parts ->
+  join_go d false items = Some (concat (map (fun p => d ++ p) parts)).
+Proof.
+  revert parts. induction items as [|x r IH]; intros parts E; cbn [rendered fold_right] in E.
+  - injection E as <-. reflexivity.
+  - fold (rendered r) in E. cbn [join_go]. destruct (render x) as [s|]; [|discriminate E].
+    destruct (rendered r) as [ps|]; [|discriminate E]. injection E as <-.
+    rewrite (IH ps eq_refl). cbn. rewrite <- app_assoc. reflexivity.
+Qed.
+
+Lemma intercalate_cons d p r : intercalate d (p :: r) = p ++ concat (map (fun q => d ++ q) r).
+Proof.
+  revert p. induction r as [|q r IH]; intros p; [cbn; rewrite app_nil_r; reflexivity|].
+  change (intercalate d (p :: q :: r)) with (p ++ d ++ intercalate d (q :: r)).
+  rewrite IH. cbn [map concat]. rewrite <- app_assoc. reflexivity.
+Qed.
+
+(* join is the concatenation of the rendered items with the joiner between neighbours *)
+Theorem join_values d v items parts : iter_items v = Ok items -> rendered items = Some parts ->
+  f_join d v = Ok (VStr false (intercalate d parts)).
+Proof.
+  intros E R. unfold f_join. rewrite E. cbn [bind].
+  destruct items as [|x r]; cbn [rendered fold_right] in R.
+  - injection R as <-. reflexivity.
+  - fold (rendered r) in R. cbn [join_go]. destruct (render x) as [s|]; [|discriminate R].
+    destruct (rendered r) as [ps|] eqn:RR; [|discriminate R]. injection R as <-.
+    rewrite (join_go_rest d r ps RR). cbn [app]. rewrite intercalate_cons. reflexivity.
+Qed.
+
+(* joining a concatenation: join the halves and put one joiner between them *)
+Theorem intercalate_app d a b : a <> [] -> b <> [] ->
+  intercalate d (a ++ b) = intercalate d a ++ d ++ intercalate d b.
+Proof.
+  intros Ha Hb. destruct a as [|p a]; [congruence|]. destruct b as [|q b]; [congruence|].
+  cbn [app]. rewrite !intercalate_cons. rewrite map_app, concat_app. cbn [map concat].
+  rewrite <- !app_assoc. reflexivity.
 Qed.
